@@ -7,6 +7,9 @@
 
 mod history;
 mod reward;
+#[cfg(feature = "verif-hooks")]
+#[allow(missing_docs, unreachable_pub, missing_debug_implementations)]
+pub mod verif_drivers;
 
 use crate::{TxId, TxVersion};
 use history::BeneficiaryHistory;
@@ -127,6 +130,12 @@ impl SpeculativeResult {
     /// The non-zero reward intentionally omitted from the finalized state.
     pub(crate) fn deferred_reward(&self) -> Option<DeferredBeneficiaryReward> {
         self.deferred_reward
+    }
+
+    /// Borrow the execution result and finalized state.
+    #[cfg(feature = "verif-hooks")]
+    pub(crate) fn verif_result_and_state(&self) -> &ResultAndState {
+        &self.result_and_state
     }
 
     /// Consume the wrapper at the ordered-commit boundary.
